@@ -41,8 +41,12 @@ class SeqModel(nn.Module):
         super().__init__()
         self.A = A
         self.w = nn.Parameter(np.array([1], dtype=object), dtype="float32")
+        self.drop = nn.Dropout()          # a fresh module is in training mode: candidates must be scored in eval mode
 
     def forward(self, X):
+        return self.drop(self._f(X))
+
+    def _f(self, X):
         n, A, L = X.shape
         rows = []
         for i in range(n):
@@ -52,8 +56,12 @@ class SeqModel(nn.Module):
         return T.Tensor(np.array(rows, dtype=object).reshape(n, T_OUT), dtype="float32")
 
 
+MASK = [None]
+
+
 def seq_loss(y, chars, A):
-    return s_sum([abs(y[t] - _F(t, chars, A)) for t in range(T_OUT)]) * Fraction(1, T_OUT)
+    sel_ = [t for t in range(T_OUT) if MASK[0] is None or MASK[0][t]]
+    return s_sum([abs(y[t] - _F(t, chars, A)) for t in sel_]) * Fraction(1, len(sel_))
 
 
 # ------------------------------------------------------------------ replay
@@ -72,17 +80,22 @@ def replay(r):
             super().__init__()
             self.p = torch.nn.Parameter(torch.zeros(1, dtype=torch.float64))
 
+            self.drop = torch.nn.Dropout(0.5)
+
         def forward(self, X):
             out = []
             for row in C.real_chars(X):
                 out.append(table["".join(map(str, row))])
-            return torch.tensor(out, dtype=torch.float64)
+            return self.drop(torch.tensor(out, dtype=torch.float64))
     X = C.real_onehot([x], A).type(torch.float64)
     y = torch.tensor([r["y"]], dtype=torch.float64)
     loss = lambda a, b: (a - b).abs()
 
+    msk = r.get("mask")
+    sel_ = [t for t in range(T_OUT) if msk is None or msk[t]]
+
     def L_of(chars):
-        return float(np.mean([abs(r["y"][t] - table["".join(map(str, chars))][t]) for t in range(T_OUT)]))
+        return float(np.mean([abs(r["y"][t] - table["".join(map(str, chars))][t]) for t in sel_]))
     import tangermeme.design as rdes
     steps = []
     real_sub = rdes.substitute
@@ -92,7 +105,7 @@ def replay(r):
         return real_sub(Xa, motif, start=start, alphabet=alphabet)
     rdes.substitute = sub_log
     try:
-        Xf = greedy_substitution(M(), X, motifs, y, loss=loss, tol=r["tol"], max_iter=r["max_iter"], alphabet=alphabet, device="cpu")
+        Xf = greedy_substitution(M(), X, motifs, y, loss=loss, mask=(None if msk is None else torch.tensor(msk)), tol=r["tol"], max_iter=r["max_iter"], alphabet=alphabet, device="cpu")
     except Exception as e:
         return True, "greedy_substitution raised %s: %s" % (type(e).__name__, e)
     finally:
@@ -174,6 +187,8 @@ def worker(cfg):
             return real_pred(model, Xa, **kw)
         des.substitute, des.predict = sub_wrap, pred_wrap
         model = SeqModel(A)
+        MASK[0] = cfg.get("mask")
+        mask_t = None if cfg.get("mask") is None else T.Tensor(np.array(cfg["mask"], dtype=object), dtype="bool")
 
         def rp(m):
             table = {}
@@ -182,7 +197,7 @@ def worker(cfg):
             return dict(cfg, x=C.eval_chars(m, xc)[0], y=[float(core.model_value(m, v)) for v in y], tol=float(core.model_value(m, tol)),
                         max_iter=core.model_value(m, max_iter), table=table)
         try:
-            Xf = des.greedy_substitution(model, X, list(motifs), Y, loss=l1, tol=tol, max_iter=max_iter, alphabet=alphabet, device="cpu")
+            Xf = des.greedy_substitution(model, X, list(motifs), Y, loss=l1, mask=mask_t, tol=tol, max_iter=max_iter, alphabet=alphabet, device="cpu")
         except Unwind:
             out["unwound"] += 1
             return "raised"
@@ -262,10 +277,12 @@ def worker(cfg):
 def configs(tier):
     if tier == "quick":
         return [dict(A=2, L=3, motifs=["C"], K=2), dict(A=2, L=3, motifs=["CA", "A"], K=1), dict(A=2, L=4, motifs=["AC"], K=1),
-                dict(A=3, L=3, motifs=["G", "CA"], K=1), dict(A=2, L=2, motifs=["CA"], K=1)]
+                dict(A=3, L=3, motifs=["G", "CA"], K=1), dict(A=2, L=2, motifs=["CA"], K=1),
+                dict(A=2, L=3, motifs=["C", "AC"], K=1, mask=[True, False])]
     return [dict(A=2, L=3, motifs=["C"], K=2), dict(A=2, L=3, motifs=["CA", "A"], K=2), dict(A=2, L=4, motifs=["AC"], K=2),
             dict(A=3, L=3, motifs=["G", "CA"], K=2), dict(A=2, L=2, motifs=["CA"], K=1), dict(A=2, L=5, motifs=["CAC", "A"], K=1),
-            dict(A=3, L=4, motifs=["GC", "A", "CAG"], K=1), dict(A=4, L=4, motifs=["T", "GA"], K=1)]
+            dict(A=3, L=4, motifs=["GC", "A", "CAG"], K=1), dict(A=4, L=4, motifs=["T", "GA"], K=1),
+            dict(A=2, L=3, motifs=["C", "AC"], K=2, mask=[True, False]), dict(A=2, L=4, motifs=["CA"], K=1, mask=[False, True])]
 
 
 def main(tier, seed):
@@ -280,6 +297,6 @@ def main(tier, seed):
                   "paths_beyond_unwinding_bound": sum(r.get("unwound", 0) for r in res)}
     rep.assumptions = ["model = uninterpreted function of the sequence (exact arithmetic)", "loss = element-wise L1 (any user loss can be passed; L1 keeps the queries linear)",
                        "ties between equally good candidates: any minimiser accepted", "a step with 0 < improvement <= tol being applied before stopping is accepted (the statement does not forbid it)",
-                       "single sequence (batch of 1), no mask, no args"]
+                       "single sequence (batch of 1), optional output mask, no args"]
     rep.witness_ok = rep.stats["returned"] > 0
     return harness.finish(rep)
